@@ -15,6 +15,8 @@
     Gen/TieFermi.lean   (R1) C04: `oddpos_dag` = `oddposDag`; (S3) the label scan of `resolve_combined_oddpos` (a `while` loop with
                         explicit fuel) = `resolveScan` / `mergeOddpos`
     Gen/TieTrunc.lean   (S3) C13: the integer tail of `calc_sub_max_bonds` = the model's distribution of the remainder
+    Gen/TieNet.lean     (S3) C19: `parse_edges_to_site_info` = `parseEdges` (format templates / formatted names as declared opaque
+                        constructors, the heterogeneous inner dict as a declared record, aliases of records stored in a dict)
     (S3) in Gen/TieRand.lean: `get_u1u1_charges` = `u1u1Charges`, `choose_duals` = `chooseDuals`
 
   None of these is imported by SymmModel.lean (the main build must not depend on symmray's source text).
@@ -27,3 +29,4 @@ import SymmModel.Gen.TieFuse
 import SymmModel.Gen.TieRand
 import SymmModel.Gen.TieFermi
 import SymmModel.Gen.TieTrunc
+import SymmModel.Gen.TieNet
